@@ -450,14 +450,16 @@ def gen_class_case(rng, cls, mal=False):
         maps_t, maps_s, dsts = [], [], set()
         for _ in range(rng.choice([0, 1, 1, 2, 3])):
             src_topic = rng.choice(['main', 'topic', 'topic2', 'other', None])
-            src_path = rng.choice([None, 'image', 'data', 'data/sub', 'data/sub/more'] + (['image/x', 'meta', 'data/'] if mal else []))
+            src_path = rng.choice([None, 'image', 'data', 'data/sub', 'data/sub/more', 'data/a/b/c'] + (['image/x', 'meta', 'data/'] if mal else []))
             if src_topic is None and src_path is None and not mal: continue   # the empty mapping has no text form inside a comma list
             dst = rng.choice([None, 'out', 'other_frames', 'd']) if src_path else None
             eff = dst or (None if not src_path else 'frames' if src_path == 'image' else src_path.rsplit('/', 1)[-1])
             if eff in dsts and not mal: continue
             dsts.add(eff)
             mo = pick_opts(rng, {'qos': [(0, '0'), (2, '2')], 'retain': B}, rng.choice([0, 0, 1, 2]))
-            t = (src_topic or '') + ('/' + src_path if src_path else '') + (sp(rng) + '>' + sp(rng) + dst if dst else '') + opt_text(rng, mo)
+            # "whitespace is ignored": pad around every '/' of the source side (topic / category / each sub-key)
+            path_t = ''.join(sp(rng) + '/' + sp(rng) + seg for seg in src_path.split('/')) if src_path and rng.random() < 0.5 else ('/' + src_path if src_path else '')
+            t = (src_topic or '') + path_t + (sp(rng) + '>' + sp(rng) + dst if dst else '') + opt_text(rng, mo)
             maps_t.append(t); maps_s.append({'dst_topic': dst, 'src_topic': src_topic, 'src_path': src_path, 'options': {k: v for k, v, _ in mo}})
         addr = host + (':' + str(port) if port else '')
         out = 'mqtt://' + addr + ('/' + bt if bt is not None else '') + opt_text(rng, gopts)
